@@ -51,6 +51,16 @@ def strategy(draw, tier="quick"):
     # (1) or carry enable_call=input (2)
     spec["chain"] = [draw(st.integers(0, 2)) for _ in range(draw(st.integers(1, 3)))] if spec["in_method"] else []
     spec["single_caller"] = draw(st.booleans())
+    # further condition() blocks in the same body (callee-free, observed through probe methods): with two of them the
+    # enclosing body and one branch of each block form a simultaneity group of four transactions
+    # (at most one block of a body is prioritised: two prioritised blocks give the merged transactions contradictory
+    # priorities, which the library rejects as cyclic - a limitation, not a statement of this property)
+    spec["extra"] = []
+    prio_used = spec["priority"]
+    for _ in range(draw(st.sampled_from([0, 0, 1, 2]))):
+        p = draw(st.booleans()) and not prio_used
+        prio_used = prio_used or p
+        spec["extra"].append(dict(nb=draw(st.integers(1, 2)), nonblocking=draw(st.booleans()), priority=p, default=draw(st.booleans())))
     spec["calls"] = [sorted(draw(st.sets(st.integers(0, nm - 1), max_size=nm))) for _ in range(nb + 1)]
     used = {k for cl in spec["calls"] for k in cl}
     free = [k for k in range(nm) if k not in used]
@@ -66,6 +76,11 @@ def strategy(draw, tier="quick"):
             priority=draw(st.booleans()),
             calls=[sorted(draw(st.sets(st.sampled_from(avail), max_size=2))) if avail else [] for _ in range(nnb)],
         )
+    # parallel blocks of one body may not both be prioritised (see above); the nested block counts for the main one
+    prio_used = spec["priority"] or bool(spec["nested"] and spec["nested"]["priority"])
+    for eb in spec["extra"]:
+        eb["priority"] = eb["priority"] and not prio_used
+        prio_used = prio_used or eb["priority"]
     return spec
 
 
@@ -85,6 +100,8 @@ class D(Elaboratable):
         # a branch is observed through a private always-ready probe method it calls (probe.run == the branch
         # transaction runs): a comb witness inside the branch would be masked by the enclosing body's run signal
         self.probe = [Method(name=f"probe{i}") for i in range(nb + 1)]
+        self.econds = [[Signal(name=f"e{k}c{i}") for i in range(eb["nb"])] for k, eb in enumerate(spec.get("extra", []))]
+        self.eprobe = [[Method(name=f"e{k}p{i}") for i in range(eb["nb"] + 1)] for k, eb in enumerate(spec.get("extra", []))]
         self.nprobe = [Method(name=f"nprobe{i}") for i in range(n["nb"])] if n else []
 
     def elaborate(self, platform):
@@ -96,7 +113,7 @@ class D(Elaboratable):
             def _():
                 pass
 
-        for pm in self.probe + self.nprobe:
+        for pm in self.probe + self.nprobe + [p for ps in self.eprobe for p in ps]:
             with pm.body(m):
                 pass
 
@@ -110,7 +127,18 @@ class D(Elaboratable):
                         for c in n["calls"][i]:
                             self.ms[c](m)
 
+        def extra_blocks():
+            for k, eb in enumerate(s.get("extra", [])):
+                with condition(m, nonblocking=eb["nonblocking"], priority=eb["priority"]) as branch:
+                    for i in range(eb["nb"]):
+                        with branch(self.econds[k][i]):
+                            self.eprobe[k][i](m)
+                    if eb["default"]:
+                        with branch():
+                            self.eprobe[k][eb["nb"]](m)
+
         def cond_block():
+            extra_blocks()
             with condition(m, nonblocking=s["nonblocking"], priority=s["priority"]) as branch:
                 for i in range(s["nb"]):
                     with branch(self.conds[i]):
@@ -181,6 +209,8 @@ def run_case(spec) -> Result:
         res.labels.append("call_chain>=2")
     if any(spec.get("chain", [])):
         res.labels.append("guarded_call")
+    if spec.get("extra"):
+        res.labels.append(f"blocks_in_body={1 + len(spec['extra'])}")
     shared = any(set(a) & set(b) for a, b in itertools.combinations(spec["calls"][: spec["nb"] + (1 if spec["default"] else 0)], 2))
     if shared:
         res.labels.append("shared_callee")
@@ -188,7 +218,7 @@ def run_case(spec) -> Result:
     dm = DependencyManager()
     with DependencyContext(dm):
         sim = Simulator(TransactronContextElaboratable(d, dependency_manager=dm))
-    ins = [d.tr] + d.conds + d.mr + d.nconds + d.guards
+    ins = [d.tr] + d.conds + d.mr + d.nconds + d.guards + [c for cs in d.econds for c in cs]
     nb, nm = spec["nb"], spec["nm"]
     n = spec.get("nested")
     out = [None]
@@ -197,7 +227,11 @@ def run_case(spec) -> Result:
     async def tb(ctx):
         cat_in = Cat(*ins)
         obs = Cat(d.parent_run, *[pm.run for pm in d.probe], *[pm.run for pm in d.nprobe], *d.w, *d.nw)
-        for v in range(1 << len(ins)):
+        eobs = Cat(*[p.run for ps in d.eprobe for p in ps]) if d.eprobe else None
+        ebase = 1 + nb + nm + len(d.nconds) + len(d.guards)
+        total = 1 << len(ins)
+        stride = 1 if len(ins) <= 11 else (total // 2048) | 1  # larger spaces: 2048 strided valuations
+        for v in range(0, total, stride):
             ctx.set(cat_in, v)
             bits = [(v >> i) & 1 for i in range(len(ins))]
             tr, c, mr = bits[0], bits[1 : 1 + nb], bits[1 + nb : 1 + nb + nm]
@@ -262,6 +296,32 @@ def run_case(spec) -> Result:
                 if w[0] and not any(nw) and not (n["nonblocking"] and not any(nc)):
                     out[0] = f"P4(nested): outer branch 0 runs without a nested branch; val={bits}"
                     return
+            # the further blocks of the same body: same clauses (their branches have no callees: admissible = condition)
+            if eobs is not None:
+                eword = ctx.get(eobs)
+                pos, cpos = 0, ebase
+                for k, eb in enumerate(spec.get("extra", [])):
+                    ew = [(eword >> (pos + i)) & 1 for i in range(eb["nb"] + 1)]
+                    ec = bits[cpos : cpos + eb["nb"]]
+                    pos += eb["nb"] + 1
+                    cpos += eb["nb"]
+                    used = eb["nb"] + (1 if eb["default"] else 0)
+                    if sum(ew[:used]) > 1:
+                        out[0] = f"P2(block {k + 1}): more than one branch runs: {ew}; val={bits}"
+                        return
+                    for i in range(eb["nb"]):
+                        if ew[i] and not (prun and ec[i]):
+                            out[0] = f"P1(block {k + 1}): branch {i} runs but parent_run={prun} cond={ec[i]}; val={bits}"
+                            return
+                        if eb["priority"] and ew[i] and any(ec[:i]):
+                            out[0] = f"P5(block {k + 1}): branch {i} runs although an earlier branch was admissible; val={bits}"
+                            return
+                    if eb["default"] and ew[eb["nb"]] and (any(ec) or not prun):
+                        out[0] = f"P3(block {k + 1}): default branch runs with conds={ec} parent_run={prun}; val={bits}"
+                        return
+                    if prun and not any(ew[:used]) and not (eb["nonblocking"] and not eb["default"] and not any(ec)):
+                        out[0] = f"P4(block {k + 1}): parent runs without a branch of this block: {ew}; val={bits}"
+                        return
             trues = [i for i in range(nb) if c[i]]
             if len(trues) >= 2 and len({callee_ok[i] for i in trues}) == 2:
                 st_["overlap"] += 1
